@@ -5,13 +5,13 @@ from run import selftest as W
 from run import witnesses2 as W2
 
 PROPERTY = "C07"
-LEAN_MODULES = ["LccModel.Props.C07", "LccModel.Props.C07Run"]
-PROPS_FILES = ["LccModel/Props/C07.lean", "LccModel/Props/C07Run.lean"]
-NAMESPACES = {"LccModel/Props/C07.lean": "LccModel.C07", "LccModel/Props/C07Run.lean": "LccModel.C07Run"}
+LEAN_MODULES = ["LccModel.Props.C07", "LccModel.Props.C07Run", "LccModel.Props.C07Listeners"]
+PROPS_FILES = ["LccModel/Props/C07.lean", "LccModel/Props/C07Run.lean", "LccModel/Props/C07Listeners.lean"]
+NAMESPACES = {"LccModel/Props/C07.lean": "LccModel.C07", "LccModel/Props/C07Run.lean": "LccModel.C07Run", "LccModel/Props/C07Listeners.lean": "LccModel.C07Listeners"}
 DRIVER = "drivers/Run.lean"
 TRUSTED_BASE = RUN_TRUSTED + ["session stream: harness/props/_session.py (drivers/Session.lean)", "the stream grammar is stated twice, as the Lean acceptor Model/Grammar.lean and as the Python recogniser run/oracles.recognise; both are run on every fired stream and must agree"]
 ASSUMPTIONS = RUN_ASSUMPTIONS + []
-RULE = 'sess stream: random protocol-shaped Session API call sequences; run stream: generated project (harness/run/gen.py) × nb_threads 1..8 × gate strategy (off/fifo/lifo/random) forcing completion orders × keyboard interrupt (30 %); non-trivial = ≥ 2 tests, ≥ 1 body entered, ≥ 8 events; distinct = hash of the case (project + schedule parameters)'
+RULE = 'sess stream: random protocol-shaped Session API call sequences; run stream: generated project (harness/run/gen.py) × nb_threads 1..8 × gate strategy (off/fifo/lifo/random) forcing completion orders × keyboard interrupt (30 %) × (60 %) 2..3 further reporting sessions of ONE class whose on_<event> handlers are set per instance (all / starts / starts+ends / records / tests), attached after the recording backend; non-trivial = ≥ 2 tests, ≥ 1 body entered, ≥ 8 events; distinct = hash of the case (project + schedule parameters)'
 EXPLANATION = "Per-thread step bracketing, elision of empty steps/phases and 'no step left open after a result ends' are Lean theorems over every protocol-following API call sequence (M3); suite begin/end ordering follows from the scheduler's ordering invariant on buildTasks (C01Graph.suite_tasks_exact, C03.suite_end_after_everything_inside); every real run's fired stream is checked by the Lean grammar acceptor and the Python recogniser."
 
 
@@ -62,7 +62,8 @@ class Run(PropRunStream):
     quick_cases = 330
     quick_seconds = 50
     p_interrupt = 0.3           # interrupted runs are ordinary cases since fix D11 (SuiteEnd / TestSessionEnd order holds under interrupt)
-    corpus = [witness("D11 "), witness("D1 "), witness("D3 ")] + W2.CONTROLS3 + [W2.EMPTY_STEP_DESCRIPTION, W2.EMPTY_STEP_IN_THREAD] + W2.CONTROLS + W2.CONTROLS2
+    p_listeners = 0.6           # several reporting sessions of ONE class with per-instance handler sets (C07: EVERY backend receives …)
+    corpus = W2.LISTENER_CONTROLS + [witness("D11 "), witness("D1 "), witness("D3 ")] + W2.CONTROLS3 + [W2.EMPTY_STEP_DESCRIPTION, W2.EMPTY_STEP_IN_THREAD] + W2.CONTROLS + W2.CONTROLS2
 
 
 def streams(ctx):
